@@ -123,6 +123,26 @@ func taintedRoot(v ssa.Value, depth int) (ssa.Value, string, bool) {
 					}
 				}
 			}
+			// load of a variable or field whose address was handed to common.ReadElements / ReadElement
+			if readElementsTarget(x.X) {
+				return v, "ReadElements", true
+			}
+			// load of a field of the object being decoded that the same function filled from the wire
+			if fa, ok := x.X.(*ssa.FieldAddr); ok && fa.Parent() != nil {
+				for _, b := range fa.Parent().Blocks {
+					for _, in := range b.Instrs {
+						st, ok := in.(*ssa.Store)
+						if !ok {
+							continue
+						}
+						if sfa, ok := st.Addr.(*ssa.FieldAddr); ok && sfa.X == fa.X && sfa.Field == fa.Field {
+							if r, s, ok := taintedRoot(st.Val, depth+1); ok {
+								return r, s, true
+							}
+						}
+					}
+				}
+			}
 		}
 	}
 	return nil, "", false
@@ -253,9 +273,82 @@ func sameRoot(a, b ssa.Value) bool {
 	ua, ok1 := a.(*ssa.UnOp)
 	ub, ok2 := b.(*ssa.UnOp)
 	if ok1 && ok2 && ua.Op == token.MUL && ub.Op == token.MUL {
+		if _, isAlloc := ua.X.(*ssa.Alloc); isAlloc && ua.X == ub.X {
+			return true
+		}
 		fa, ok3 := ua.X.(*ssa.FieldAddr)
 		fb, ok4 := ub.X.(*ssa.FieldAddr)
 		return ok3 && ok4 && fa.X == fb.X && fa.Field == fb.Field
+	}
+	return false
+}
+
+// readElementsTarget: the address (a local variable or a field) is passed, boxed in an interface, to
+// common.ReadElements or common.ReadElement somewhere in its function, and addresses an integer.
+func readElementsTarget(addr ssa.Value) bool {
+	pt, ok := addr.Type().Underlying().(*types.Pointer)
+	if !ok || typeBits(pt.Elem()) == 0 {
+		return false
+	}
+	var cands []ssa.Value
+	switch a := addr.(type) {
+	case *ssa.Alloc:
+		cands = []ssa.Value{a}
+	case *ssa.FieldAddr:
+		if a.Parent() == nil {
+			return false
+		}
+		for _, b := range a.Parent().Blocks {
+			for _, in := range b.Instrs {
+				if fa, ok := in.(*ssa.FieldAddr); ok && fa.X == a.X && fa.Field == a.Field {
+					cands = append(cands, fa)
+				}
+			}
+		}
+	default:
+		return false
+	}
+	isReader := func(in ssa.Instruction) bool {
+		cl, ok := in.(*ssa.Call)
+		if !ok {
+			return false
+		}
+		f := cl.Call.StaticCallee()
+		return f != nil && f.Pkg != nil && strings.HasSuffix(f.Pkg.Pkg.Path(), "Elastos.ELA/common") && (f.Name() == "ReadElements" || f.Name() == "ReadElement")
+	}
+	for _, cnd := range cands {
+		refs := cnd.Referrers()
+		if refs == nil {
+			continue
+		}
+		for _, r := range *refs {
+			mi, ok := r.(*ssa.MakeInterface)
+			if !ok || mi.Referrers() == nil {
+				continue
+			}
+			for _, r2 := range *mi.Referrers() {
+				if isReader(r2) {
+					return true
+				}
+				st, ok := r2.(*ssa.Store)
+				if !ok {
+					continue
+				}
+				if ia, ok := st.Addr.(*ssa.IndexAddr); ok {
+					if arr, ok := ia.X.(*ssa.Alloc); ok && arr.Referrers() != nil {
+						for _, r3 := range *arr.Referrers() {
+							if sl, ok := r3.(*ssa.Slice); ok && sl.Referrers() != nil {
+								for _, r4 := range *sl.Referrers() {
+									if isReader(r4) {
+										return true
+									}
+								}
+							}
+						}
+					}
+				}
+			}
+		}
 	}
 	return false
 }
